@@ -463,7 +463,9 @@ class SqliteHistory(History):
         return cnt
 
     def run_gc(self, size=None, blocking=True, **_):
-        self.gc = SqliteHistoryGC(wait_for_shell=False, size=size)
+        self.gc = SqliteHistoryGC(
+            wait_for_shell=False, size=size, filename=self.filename
+        )
         if blocking:
             while self.gc.is_alive():
                 time.sleep(0.1)  # don't monopolize the CPU while waiting for gc
